@@ -68,6 +68,31 @@ def run(ctx):
     ok = bool(statics) and bool(inner) and all(any(ba.edge_dominates((sw, f_t), s) for (sw, t_t, f_t) in inner) for s in statics)
     ctx.ob("R11.1", "%s|set_static-only-if-not-override" % SS.key, ok, where=ctx.where(SS, statics[0]) if statics else SS.span,
            detail="set_static (which clears the override flag) is applied only when the file is not an override" if ok else "an overridden target is turned back into a plain source, losing the override flag")
+    # on the override side nothing clears the override flag (set_changed / set_static / set_generated / update_stamp do)
+    clearers = set()
+    for b in prog.bodies.values():
+        if not b.key.startswith("state::File::"):
+            continue
+        for _, _, st_ in field_writes(b, r"state::File\.is_override"):
+            c_ = op_const(st_["rv"].get("op")) if st_["rv"]["k"] == "use" else None
+            if c_ is not None and c_.get("bool") is False:
+                clearers.add(b.key)
+    changed_ = True
+    while changed_:
+        changed_ = False
+        for b in prog.bodies.values():
+            if b.key.startswith("state::File::") and b.key not in clearers and any(t == k_ for k_ in clearers for (_, t, kind) in ctx.cg.site_edges.get(b.key, []) if kind == "direct"):
+                clearers.add(b.key)
+                changed_ = True
+    ov_side = []
+    for (sw, t_t, f_t) in inner:
+        ov_side.append(t_t)
+    clear_calls = [i for i in ba.all_calls() if any(p_ in clearers for p_ in callee_paths(SS.blocks[i]["term"]))]
+    ctx.floor("R11.1", "File methods that clear the override flag", len(clearers), 3)
+    common.not_reach(ctx, "R11.1", "%s|override-side-keeps-the-flag" % SS.key, SS, ov_side + [O[1]] if not inner else ov_side, clear_calls,
+                     "on the is_override side of the leave-alone branch nothing clears the override flag before it is saved",
+                     "on the is_override side a File method that clears is_override (set_changed via update_stamp, set_static, ...) is called: after a second manual edit the flag is lost and a later redo overwrites the user's file",
+                     avoid=ba.calls(r"state::File::save"))
     # the three mutation anchors are dominated by the guard test
     ok = all(ba.dominates(E, x) for x in bad_targets) and bool(forks)
     ctx.ob("R11.1", "%s|build-steps-dominated-by-guard" % SS.key, ok, where=ctx.where(SS, E), detail="zap_deps1, find_do_file and the fork are all dominated by the guard")
